@@ -81,17 +81,29 @@ Proof.
   - eapply isolation_fresh; eauto. apply forallb_map_fresh.
 Qed.
 
-(* eval('B = A') then B[...] = 9: the input's A changes *)
-Lemma alias_refuted : exists (o : op) (h h' : heap nat) out ws i,
-  run_actions nat h (actions_of (impl_effs o) [] []) = (h', out)
+(* every catalogued call is isolated: full strength *)
+Lemma all_isolated (o : op) : isolated o = true.
+Proof. destruct o; reflexivity. Qed.
+
+Lemma isolation_all (o : op) :
+  forall A (outs : list (list A)) junk (h h' : heap A) out ws,
+  run_actions A h (actions_of (impl_effs o) outs junk) = (h', out) ->
+  (forall w, In w ws -> In (fst w) out) ->
+  (forall j, In j out -> length h <= j)
+  /\ forall i, i < length h -> hread A (write_all A h' ws) i = hread A h i.
+Proof. apply isolation_isolated, all_isolated. Qed.
+
+(* the hypothesis "all outputs fresh" of the isolation theorem is needed: one Alias action (what eval('B = A') used to
+   be) and a later write into the result change the input buffer *)
+Lemma fresh_hypothesis_needed : exists (acts : list (action nat)) (h h' : heap nat) out ws i,
+  run_actions nat h acts = (h', out)
   /\ (forall w, In w ws -> In (fst w) out) /\ i < length h
-  /\ hread nat h' i = hread nat h i
   /\ hread nat (write_all nat h' ws) i <> hread nat h i.
 Proof.
-  exists (EvalName 0), [[1; 2]], [[1; 2]], [0], [(0, [9; 9])], 0.
+  exists [Alias 0], [[1; 2]], [[1; 2]], [0], [(0, [9; 9])], 0.
   split; [reflexivity|]. split.
   - intros w [<-|[]]. left. reflexivity.
-  - split; [simpl; lia|]. split; [reflexivity|]. vm_compute. discriminate.
+  - split; [simpl; lia|]. vm_compute. discriminate.
 Qed.
 
 (* every query leaves the heap exactly as it was and hands back no buffer *)
